@@ -1,6 +1,8 @@
 package transaction
 
 import (
+	"bytes"
+
 	"github.com/nspcc-dev/neo-go/pkg/io"
 )
 
@@ -26,6 +28,6 @@ func (e *Reserved) toJSONMap(m map[string]any) {
 // Copy implements the AttrValue interface.
 func (e *Reserved) Copy() AttrValue {
 	return &Reserved{
-		Value: e.Value,
+		Value: bytes.Clone(e.Value),
 	}
 }
